@@ -299,6 +299,17 @@ func c10ConstProgram(r interface{ IntN(int) int }, hashMaps bool) *gen.Program {
 		func() *ref.Node { return ref.Index(c, ref.Bin("%", ref.Static("abs", n), I(3))) },
 		func() *ref.Node { return ref.Method(c, "minMax", clo(ref.Bin("*", id("v"), n), "v")) },
 		func() *ref.Node { return ref.Method(c, "movingWindow", clo(ref.Bin("+", id("v"), I(0)), "v")) },
+		// views into the constant (windows, cuts) that are appended to
+		func() *ref.Node {
+			return ref.Method(ref.Method(ref.Index(ref.Method(c, "movingWindow", clo(id("v"), "v")), I(0)), "append", n), "size")
+		},
+		func() *ref.Node {
+			return ref.Method(ref.Index(ref.Method(c, "movingWindow", clo(id("v"), "v")), I(1)), "append", n)
+		},
+		func() *ref.Node { return ref.Method(ref.Method(c, "top", I(2)), "append", n) },
+		func() *ref.Node { return ref.Method(ref.Method(ref.Method(c, "eval"), "top", I(1)), "append", n) },
+		func() *ref.Node { return ref.Method(ref.Index(ref.Method(c, "combineN", I(2), clo(id("w"), "w")), I(0)), "append", n) },
+		func() *ref.Node { return ref.Method(c, "top", ref.Un("-", ref.Static("abs", n))) },
 	}
 	mapOps := []func() *ref.Node{
 		func() *ref.Node { return ref.Method(c, "put", s, n) },
